@@ -11,7 +11,7 @@ INFO = {
                   "v2version._parse_pattern_fields", "v2version._is_cal_gt", "v2version._ver_to_cal_info", "cli._validate_flags",
                   "lexid.next_id (BUILD patterns)", "v2version.parse_version_info + format_version (strings_step)"],
     "bounds": "numeric parts 0..120 (quick) / 0..12000 (thorough), years 1000..9999 (two-digit-year parts 2001..2099), months 1..12, "
-              "weeks 0..53, BUILD 1000..9998, every tag x every --tag value, all 2^6 boolean flags; today's calendar fields independent "
+              "weeks 0..53, BUILD id pinned to 1998 here (symbolic ids: C17), every tag x every --tag value, all 2^6 boolean flags; today's calendar fields independent "
               "symbolic values in their domains (over-approximation); patterns: see samples",
     "outside": "full-date patterns (YYYY.MM.DD, YYYY.JJJ): numeric step, --tag-num guard and result stage are in both tiers, their "
                "calendar stage only in the thorough tier (10 min per query; C14-L4 shows the real _is_cal_gt is the date order); BUILD ids outside 1000..9998 (C17); parts > 12000; GITHASH/HEXHASH",
@@ -119,6 +119,7 @@ def wrapper(kind, pattern, hi, fixed, ranges_override=None):
                 add_bool(b)
             call = (f"c05.strings_step({old_vals}, {tag_expr}, {today_vals}, f_major, f_minor, f_patch, f_tagnum, f_pininc, "
                     f"f_pindate, newtag_i)")
+            extra_pre = extra_pre + [f"c05.valid_old({old_vals}, {tag_expr})"]
     if fulldate:
         extra_pre = list(extra_pre) + ["c05.real_day(o_year_y, o_doy)"] + \
             (["c05.real_day(c_year_y, c_doy)"] if kind == "numeric" else ["c05.real_day(t_year_y, t_doy)"])
@@ -204,6 +205,18 @@ def obligations(tier):
         fixed = dict(today_fix, newtag_i=0, f_tagnum=False, f_pindate=True, **passthru)
         obs.append(Ob(f"L2c.guards_step.result[{pat}]", "c05.py", "ob", _params(pat, extra), timeout=t,
                       source=wrapper("guards", pat, hi, fixed), bounds=json.dumps(_ranges(g, hi))))
+    # end to end on real strings (real parse + format inside incr), thorough tier: the cross product of the stages on small values
+    if tier != "quick":
+        for pat in ("MAJOR.MINOR.PATCH[PYTAGNUM]", "YYYY.MM[.INC0]", "vYYYY.WW[-TAGNUM]"):
+            g = grammar.info(pat)
+            has_tag = "tag" in set(g["fields"]) or "pytag" in set(g["fields"])
+            for nt in (range(len(rm.TAGS) + 1) if has_tag else [0]):
+                for pin in (False, True):
+                    fixed = {"newtag_i": nt, "f_pindate": pin}
+                    small = {f: (r[0], min(r[1], r[0] + 9)) if f not in ("year_y",) else (2019, 2022) for f, r in _ranges(g, 9).items()}
+                    obs.append(Ob(f"L5.strings_step[{pat}; --tag {([None] + rm.TAGS)[nt]}{' --pin-date' if pin else ''}]", "c05.py", "ob",
+                                  _params(pat), timeout=1800, source=wrapper("strings", pat, 9, fixed, ranges_override=small),
+                                  bounds=json.dumps(small)))
     # fixed-signature lemmas
     extra = {"exclude_pin_week0": True} if open_week0 else {}
     obs.append(Ob("L3.pin_date_keeps_fields", "c05.py", "pin_date_keeps_fields", extra, timeout=t))
